@@ -50,6 +50,7 @@ func dialer(lis *bufconn.Listener) []grpc.DialOption {
 func poolHistories(w *vc.Writer, r *vc.Rand, lis *bufconn.Listener) {
 	n := vc.Scale(300, 20000)
 	for h := 0; h < n; h++ {
+		w.Current(vc.L{"history number (the histories are generated from the seed in this order)", h})
 		rr := r.Fork()
 		var pool *grpcadapter.AdaptedClientPool
 		failNext := false
@@ -180,6 +181,7 @@ func bridgeGoroutines() int {
 func routerHistories(w *vc.Writer, r *vc.Rand, lis *bufconn.Listener) {
 	n := vc.Scale(120, 5000)
 	for h := 0; h < n; h++ {
+		w.Current(vc.L{"history number (the histories are generated from the seed in this order)", h})
 		rr := r.Fork()
 		failNext := false
 		router := grpcbridge.NewReflectionRouter(
